@@ -54,6 +54,8 @@ def run(ctx):
     # date-time payloads: the zone name written is one whose offset at that instant is the value's (shared with C17)
     from . import c17
     c17._timezone_name(ctx, ctx.model, rule='C06.D4')
+    from . import c07
+    c07.writer_memo(ctx, 'C06.D4', 'jsondumper')
     # ... and the stamp written is isoformat() of the value itself, not of a converted / re-assembled one
     c17._api(ctx, ctx.model, rule='C06.D4', only=('jsondumper',), conversions_only=True)
     # XStr payloads: hex digits / one-line standard base64 (XStr.data_to_string, datatypes.py)
